@@ -18,6 +18,7 @@ from . import paths
 TRANSLATORS = [
     ('translator.gen_lut', 'GenLut.v'),
     ('translator.gen_consts', 'GenConsts.v'),
+    ('translator.gen_api', 'GenApi.v'),
 ]
 
 FORBIDDEN = re.compile(r'\b(Admitted|admit|Axiom|Axioms|Parameter|Parameters|Conjecture|Conjectures|Abort All)\b'
